@@ -159,6 +159,12 @@ impl Monitors {
             }
         };
         if self.wal_wellformed && touches_log && !self.flagged("C20") {
+            if ev.call == Call::Truncate {
+                // a failed append is rolled back by cutting the segment: the version of the record
+                // that was removed was never acknowledged and may be used again
+                let keep = parsed.max_version.max(self.acked_max);
+                self.versions_seen.retain(|v, _| *v <= keep);
+            }
             self.check_wellformed(&parsed, ev);
         }
         if self.no_dangling && !self.flagged("C04") {
